@@ -363,6 +363,13 @@ func cmdCheck(args []string) int {
 		unprovedSeen = append(unprovedSeen, oa+" — 64-bit overflow not excluded; arithmetic treated as mathematical there (advisory obligation, not claimed)")
 	}
 	writeEvidence(*prop, *tier, seed, pr, lock[*prop], viols, known, time.Since(start), unprovedSeen)
+	if os.Getenv("GOVC_SLOW") != "" {
+		allO := append(append([]*Oblig{}, pr.Obligs...), pr.Canary...)
+		sort.Slice(allO, func(i, j int) bool { return allO[i].Ms > allO[j].Ms })
+		for i := 0; i < 8 && i < len(allO); i++ {
+			fmt.Fprintf(os.Stderr, "  slow: %6dms %-8s %s\n", allO[i].Ms, allO[i].Status, allO[i].Name)
+		}
+	}
 	fmt.Fprintf(os.Stderr, "govc: %s %s: %d units, %d obligations claimed, %d discharged, %d violations, %d known findings, %d unproved(not claimed), load %dms, gen+solve %dms\n",
 		*prop, *tier, len(pr.Units), claimed, discharged, len(viols), len(known), len(unprovedSeen), pr.LoadMs, pr.SolveMs)
 	if vacuous > 0 {
